@@ -3,6 +3,7 @@ package main
 // Translation of contract expressions into SMT terms, evaluated in a heap state.
 
 import (
+	"os"
 	"crypto/sha1"
 	"fmt"
 	"go/constant"
@@ -321,6 +322,13 @@ func (e *Env) ident(name string) TV {
 		if obj := e.pkg.Scope().Lookup(name); obj != nil {
 			return e.object(obj)
 		}
+	}
+	if os.Getenv("GOVC_DEBUGENV") != "" {
+		var ks []string
+		for k := range e.vars {
+			ks = append(ks, k)
+		}
+		fmt.Fprintf(os.Stderr, "unknown identifier %q; env has %v\n", name, ks)
 	}
 	e.fail("unknown identifier %q", name)
 	return TV{}
